@@ -21,6 +21,6 @@ PROP = {
 
 # (category, text, design_ref, technique)
 LEVEL = ("proof",
-         "comptime_yields_runtime_value: for every accepted result type and every state the block's code leaves the machine in, the value the built program observes (inside a function body via iconst/f32const/f64const/data object, and through a global's data object) is the value the block computed — assembled from embed_capture_int (8-64 bits, either byte order), embed_capture_int128, embed_capture_float (f32 through f64, exact off NaN), embed_capture_bytes (aggregates: exactly `size` bytes, C17), embed_capture_str, embed_capture_type + type_roundtrip, embed_capture_void; accepted_imp_pointer_free / pointer_free_imp_accepted: the checker accepts exactly `str` and the types holding no address at any depth; accepted_pointer_final_is_aggregate: the buffer capture is only reached by aggregates. The pinned tree violated the property (str and every aggregate holding a pointer were accepted and dangled; i128 blocks panicked the compiler): repaired by FIX.patch (Ty::contains_pointer in the ComptimePointer check, str results captured as their characters, LLVM ABI extensions for the JIT); accepted_old_imp_pointer_free_counterexample records the old rule. Each run checks the real checker on 220 (thorough 1200) generated types, the real JIT's ComptimeResult on every generated block, and builds programs with the real CLI in which every block body (all integer widths incl. 128, floats by bit pattern, bool, char, str, type, arrays, structs, enums, optionals, error unions, distincts) is evaluated at run time and in four comptime positions and must print the same leaves, plus a side-effect program (compile-time output once, never at run time).",
+         "comptime_yields_runtime_value: for every accepted result type and every state the block's code leaves the machine in, the value the built program observes (inside a function body via iconst/f32const/f64const/data object, and through a global's data object) is the value the block computed — assembled from embed_capture_int (8-64 bits, either byte order), embed_capture_int128, embed_capture_float (f32 through f64, exact off NaN), embed_capture_bytes (aggregates: exactly `size` bytes, C17), embed_capture_str, embed_capture_type + type_roundtrip, embed_capture_void; global_wider_int (Props/C04Widen.lean: a global annotated with a wider number type than its constant value reads the sign/zero extension of the value whatever lies next to it in memory; old_global_wider_reads_neighbour is the pre-ad641e3 counterexample), checked end to end by the `widen` stream (every narrower-to-wider integer pair and f32-to-f64, global comptime / constant alias / local comptime / run-time local); accepted_imp_pointer_free / pointer_free_imp_accepted: the checker accepts exactly `str` and the types holding no address at any depth; accepted_pointer_final_is_aggregate: the buffer capture is only reached by aggregates. The pinned tree violated the property (str and every aggregate holding a pointer were accepted and dangled; i128 blocks panicked the compiler): repaired by FIX.patch (Ty::contains_pointer in the ComptimePointer check, str results captured as their characters, LLVM ABI extensions for the JIT); accepted_old_imp_pointer_free_counterexample records the old rule. Each run checks the real checker on 220 (thorough 1200) generated types, the real JIT's ComptimeResult on every generated block, and builds programs with the real CLI in which every block body (all integer widths incl. 128, floats by bit pattern, bool, char, str, type, arrays, structs, enums, optionals, error unions, distincts) is evaluated at run time and in four comptime positions and must print the same leaves, plus a side-effect program (compile-time output once, never at run time).",
          "§4 C04",
          "Lean 4 proof (byte-level capture/embed round trip + soundness and completeness of the acceptance rule) + in-process and end-to-end correspondence on generated blocks")
